@@ -169,26 +169,31 @@ def _gibbs(ctx, rbm, nv, nh, na, cond_h, cond_v, cond_a):
                     st.BERNOULLI_HOOK[0] = None
                 tag = "[k=%d overwrite=%s pattern=%d]" % (k, overwrite, pat)
                 log = list(st.RNG_LOG)
-                per = 3 if pur else 2
-                ctx.holds("gibbs_steps/number-of-draws" + tag, len(log) == per * k, "%d bernoulli calls" % len(log))
-                if len(log) != per * k:
+                shapes = [tuple(l[1].shape) for l in log]
+                sep = ([(B, nh), (B, na), (B, nv)] if pur else [(B, nh), (B, nv)]) * k
+                comb = [(B, nh + na), (B, nv)] * k              # hidden and auxiliary units drawn in one call, [h ; a]
+                if shapes == sep:
+                    layout = "separate"
+                elif pur and shapes == comb:
+                    layout = "combined"
+                else:
+                    # an unrecognised draw structure is not a violation by itself: the obligation stays undecided and
+                    # the empirical k-step law of the bounded driver decides
+                    ctx.undecided("gibbs_steps/draw-structure" + tag, "bernoulli calls had shapes %s; recognised: %s or %s" % (shapes, sep, comb if pur else "-"))
                     continue
+                per = len(shapes) // k if k else 0
                 cur = [list(map(int, r)) for r in starts]
-                want_shapes = ([(B, nh), (B, na), (B, nv)] if pur else [(B, nh), (B, nv)]) * k
-                okshape = [tuple(l[1].shape) for l in log] == want_shapes
-                if not okshape:
-                    ctx.holds("gibbs_steps/draw-order-and-shapes (h, [a,] then v per step)" + tag, False,
-                              "bernoulli calls had shapes %s, expected %s" % ([tuple(l[1].shape) for l in log], want_shapes))
-                    continue
+                okshape = True
                 for t in range(k):
-                    ph_rec = log[per * t][1]
-                    hd = draws[per * t]
+                    if layout == "separate":
+                        ph_rec, hd = log[per * t][1], draws[per * t]
+                        pa_rec, ad = (log[per * t + 1][1], draws[per * t + 1]) if pur else (None, None)
+                    else:
+                        both, bd = log[per * t][1], draws[per * t]
+                        ph_rec, pa_rec, hd, ad = both[:, :nh], both[:, nh:], bd[:, :nh], bd[:, nh:]
                     for b in range(B):
                         ctx.eq_arrays("gibbs_steps/h-drawn-from-P(h|current v)%s[step=%d chain=%d]" % (tag, t, b), ph_rec[b], cond_h(cur[b]), z3_confirm=False)
-                    ad = None
                     if pur:
-                        pa_rec = log[per * t + 1][1]
-                        ad = draws[per * t + 1]
                         for b in range(B):
                             ctx.eq_arrays("gibbs_steps/a-drawn-from-P(a|current v)%s[step=%d chain=%d]" % (tag, t, b), pa_rec[b], cond_a(cur[b]), z3_confirm=False)
                     pv_rec = log[per * t + per - 1][1]
